@@ -56,6 +56,16 @@ def main() -> None:
             continue
         det = "; ".join(f"{k}: {'CAUGHT' if v['rc'] == 1 else ('inconclusive' if v['rc'] == 2 else 'MISSED')}" for k, v in r["checks"].items())
         srows.append(f"| {r['mutation']} | {r['file'].split('/')[-1]} | {det or 'not run (no property expected)'} |")
+    rrows = []
+    rdir = V / "refactors"
+    if rdir.exists():
+        for d in sorted(x for x in rdir.iterdir() if x.is_dir()):
+            m = json.loads((d / "meta.json").read_text())
+            diff = (d / "patch.diff").read_text()
+            files = sorted({l[6:].split("/")[-1] for l in diff.splitlines() if l.startswith("+++ b/")})
+            det = "; ".join(f"{k}: {'silent' if v['exit'] == 0 else ('ALARM' if v['exit'] == 1 else 'inconclusive')}"
+                            for k, v in m.get("checks", {}).items()) or m.get("apply_error", "")[:80]
+            rrows.append(f"| {d.name} | {', '.join(files)} | {m.get('diffstat', '')} | {det} |")
     text = ["## 9. Seeded changes and which checks catch them", "",
             "### 9.1 Changes written by independent sub-agents (`/verif/seeded/<id>-<A|B>/`)", "",
             "Each sub-agent was given only the text of one property and a scratch worktree. I re-confirmed every change "
@@ -66,7 +76,17 @@ def main() -> None:
             "| seeded change | file(s) touched | quick check verdict | violation kind reported first | history |",
             "|---|---|---|---|---|", *rows, "",
             "### 9.2 My own deliberate breaks (DESIGN §6, `python -m vf.selftest`, quick tier at 30 % budget)", "",
-            "| mutation | file | verdict |", "|---|---|---|", *srows, "", NOTES]
+            "| mutation | file | verdict |", "|---|---|---|", *srows, "", NOTES, "",
+            "### 9.3 Behaviour-preserving refactorings (`/verif/refactors/`, `python -m vf.refactest`)", "",
+            "Four further sub-agents were asked for the opposite of a seeded defect: realistic refactorings of the "
+            "anchored files (extracted / inlined helpers, renamed private attributes and methods, rewritten conditions, "
+            "loops vs comprehensions, restructured exception handling, changed log texts) that keep the behaviour each "
+            "property describes exactly as it is, with the repository's tests still passing. Every check that shares the "
+            "touched files was run against each of them (quick tier, 40 % budget, scratch worktree): all must stay "
+            "silent. The sub-agents' equivalence arguments are kept in `refactors/notes_<n>.md`. The harnesses reach "
+            "into a few private names (documented in §8.1); none of the renames in these patches hit one, and a rename "
+            "that does would surface as *inconclusive* (harness error), not as a violation.", "",
+            "| refactoring | file(s) touched | size | checks |", "|---|---|---|---|", *rrows]
     p = V / "DESIGN.md"
     s = p.read_text()
     i = s.find("## 9. Seeded changes and which checks catch them")
